@@ -5,9 +5,13 @@ import json, os, subprocess, sys, time
 V = os.path.dirname(os.path.dirname(os.path.abspath(__file__)))
 args = [a for a in sys.argv[1:] if not a.startswith("--")]
 only = [a.split("=", 1)[1] for a in sys.argv[1:] if a.startswith("--only=")]
-for pid in args:
+# --check=Cyy: run another property's check against the seeded change (a change aimed at one
+# property often breaks a neighbouring one too); recorded under "also_detected_by"
+other = [a.split("=", 1)[1] for a in sys.argv[1:] if a.startswith("--check=")]
+for spid in args:
+    pid = other[0] if other else spid
     for sid in sorted(os.listdir(os.path.join(V, "seeded"))):
-        if not sid.startswith(pid + "-"):
+        if not sid.startswith(spid + "-"):
             continue
         if only and not any(o in sid for o in only):
             continue
@@ -32,7 +36,7 @@ for pid in args:
                 except Exception:
                     replay = None
             m = json.load(open(os.path.join(d, "meta.json")))
-            m["detected_by"] = {"check": "./check %s (quick)" % pid, "exit": p.returncode, "violation_lines": viol,
+            m["also_detected_by" if other else "detected_by"] = {"check": "./check %s (quick)" % pid, "exit": p.returncode, "violation_lines": viol,
                                 "replay_key": (replay or {}).get("key"), "wall_s": round(time.time() - t0, 1)}
             json.dump(m, open(os.path.join(d, "meta.json"), "w"), indent=1)
             print(sid, "exit=%d" % p.returncode, "DETECTED" if viol else "MISSED", (replay or {}).get("key"), "%.0fs" % (time.time() - t0))
